@@ -412,6 +412,7 @@ def check_C16(tier):
              "non-trivial = identifiers the model parses" % (1 if q else 3))
     tr = c.drive("did", 4000 if q else 40000)
     c.validate("did", "TraceDid", "TraceDid.cfg", tr, rule="random / mutated identifier strings judged by TraceDid")
+    ambient_part(c, "C16", tier == "quick")
     return c.finish()
 
 
@@ -491,6 +492,7 @@ def check_C07(tier):
              "lengths, extreme time bounds, 13 argument/metadata value classes with several concrete values each) x "
              + ("2 of the 24" if q else "all 24") + " (algorithm, codec, decoder) combinations; both decoders are always run and "
              "compared; non-trivial = a special class or more than two options")
+    ambient_part(c, "C07", tier == "quick")
     return c.finish()
 
 
@@ -510,6 +512,7 @@ def check_C17(tier):
              "{bytes,stream} writer x {bytes,stream} reader x <=%d damage actions (entry: flipped data bit, re-sealed data with recomputed "
              "CID, flipped / swapped block CID, truncated / zero-length / oversize section, non-bytes element; frame: version, extra key, "
              "non-map, invalid base64 character; benign: reorder, duplicate, foreign valid CID); non-trivial = harmful damage" % (n, md))
+    ambient_part(c, "C17", tier == "quick")
     return c.finish()
 
 
@@ -530,6 +533,7 @@ def check_C18(tier):
     c.validate("streamall", "TraceStream", "TraceStream.cfg", tr, timeout=3000,
                rule=("~60 offsets per artefact" if q else "EVERY byte offset") + " x {read error, early EOF} and EVERY underlying write of "
                     "6 (quick) / 9 artefacts x 3 paddings (base64 tails of every residue), judged by TraceStream")
+    ambient_part(c, "C18", tier == "quick")
     return c.finish()
 
 
@@ -551,6 +555,7 @@ def check_C19(tier):
     tr = c.drive("metabits", 400 if q else 0)
     c.validate("metabits", "TraceMeta", "TraceMeta.cfg", tr, rule=("~400 bits per ciphertext" if q else "EVERY bit of 4 stored ciphertexts")
                + " flipped and read back with the right key; 300 encryptions per plaintext pairwise distinct (TraceMeta)")
+    ambient_part(c, "C19", tier == "quick")
     return c.finish()
 
 
@@ -598,6 +603,7 @@ def check_C20(tier):
     if tr.strip():
         c.validate("race", "TraceImmutable", "TraceImmutable.cfg", tr,
                    rule="8 goroutines x 6 random read-only operations on shared tokens under the Go race detector (%d rounds)" % (30 if q else 400))
+    ambient_part(c, "C20", tier == "quick")
     return c.finish()
 
 
@@ -614,6 +620,7 @@ def check_C08(tier):
              "length, permuted keys, narrower float, undefined-for-null, third envelope element, ECDSA s->n-s, long-form DER) applied by a "
              "stand-alone CBOR transcoder at every applicable item of its position class, %s; non-trivial = distinct re-encodings" %
              ("one feature at a time" if q else "up to two features"))
+    ambient_part(c, "C08", tier == "quick")
     return c.finish()
 
 
@@ -682,6 +689,27 @@ def session_part(c, pid, q):
         os.remove(cp)
         c.mc("MC_Session", cfg, dict(Deviations='{"%s"}' % dev, Emit="", **dict(consts, **({"Links": "ST_Links1"} if "Links" in consts else ({"MaxChecks": 2} if "MaxChecks" in consts else {})))),
              expect_violation=["Historyless"], label="sensitivity: memo state on the token (%s) breaks Historyless" % dev)
+
+
+AMBIENT_DEV = {"C07": ["MemoRacy"], "C08": ["DirtyPool"], "C16": ["PooledResult"], "C17": ["SharedScratch"], "C18": ["SharedScratch", "DirtyPool"],
+               "C19": ["PooledResult"], "C20": ["PooledResult", "DirtyPool", "SharedScratch", "MemoRacy", "SharedBudget"]}
+
+
+def ambient_part(c, pid, q):
+    """Ambient.tla: no package-level state that one call leaves behind for another; every interleaving of the bounded
+    model is executed on the real library with the processes suspended at the library's calls into the caller."""
+    for procs, ms in ([("{1, 2}", 3)] if q else [("{1, 2}", 4), ("{1, 2, 3}", 2)]):
+        cp = c.case_path(pid + "amb")
+        c.mc("Ambient", "MC_Ambient.cfg", dict(Procs=procs, MaxSteps=ms, Deviations="{}", Emit="Emit"), timeout=1500, case_file=cp,
+             label="Ambient: Isolation (what an operation hands out is what it hands out alone) and Stable (and stays so), every interleaving")
+        c.replay("ambient:" + pid, cp, rule="Ambient.tla: EVERY interleaving of %s processes with operations of <=%d steps, failing or not, executed on the "
+                 "real library: goroutines on SHARED tokens suspended at Write / Read / GetDelegation / argument-list iteration, two assignments "
+                 "of real operations per schedule (the property's own operations in turn, partners from the whole catalogue of 15), each result "
+                 "judged when handed out and again after everything else has run; then 8 free-running goroutines x 300 operations" % (procs, ms))
+        os.remove(cp)
+    for dev in AMBIENT_DEV[pid]:
+        c.mc("Ambient", "MC_Ambient.cfg", dict(Procs="{1, 2}", MaxSteps=2, Deviations='{"%s"}' % dev, Emit=""), expect_violation=["Isolation", "Stable"],
+             label="sensitivity: package-level state (%s) breaks Isolation / Stable" % dev)
 
 
 def ucan_part(c, pid, q):
